@@ -180,17 +180,59 @@ class Model:
         p = subprocess.run(['bash', '-c', 'ulimit -s unlimited 2>/dev/null; exec "%s"' % self.path], input='%d %s\n' % (fn, sx(arg)), capture_output=True, text=True)
         return parse_sx(p.stdout.strip())
 
+# ---- non-termination guard.  Every call of an implementation wrapper made by core (sharded run, shrinking,
+# order replay, --replay) runs under a CPU-time limit (ITIMER_PROF, so a loaded machine does not trip it; the
+# property modules' own, shorter guards use other timers).  A call that exceeds it answers ['HANG', seconds],
+# which run_check reports as a violation with that input as the replay; after MAX_HANGS_PER_WORKER such cases a
+# worker skips the rest of its shard (['HANG-SKIPPED']) so that the check itself still terminates.
+HANG_CPU_S = int(os.environ.get('VERIF_HANG_CPU_S', '60'))
+MAX_HANGS_PER_WORKER = 2
+_hang_limit = [HANG_CPU_S]     # lowered for the shrinking / search phase once the sharded run has met a hang
+class ImplHang(BaseException):
+    pass
+def _on_prof(sig, frm):
+    raise ImplHang()
+def is_hang(o):
+    return isinstance(o, list) and len(o) > 0 and o[0] in ('HANG', 'HANG-SKIPPED')
+def hang_guard(f):
+    def g(arg):
+        import signal
+        try:
+            old = signal.signal(signal.SIGPROF, _on_prof)
+        except ValueError:            # not in the main thread: no guard available
+            return f(arg)
+        try:
+            signal.setitimer(signal.ITIMER_PROF, _hang_limit[0])
+            try:
+                return f(arg)
+            finally:
+                signal.setitimer(signal.ITIMER_PROF, 0)
+        except ImplHang:
+            return ['HANG', _hang_limit[0]]
+        finally:
+            signal.signal(signal.SIGPROF, old)
+    g.__wrapped__ = f
+    return g
+
 _IMPL_FUNCS = None
 _ORACLE = None
 def _impl_worker(chunk):
     """runs the implementation wrapper and (in the same worker) the property oracle on its output;
     returns a list of (output, oracle_message_or_None)"""
     out = []
+    hangs = 0
     for fn, arg in chunk:
+        if hangs >= MAX_HANGS_PER_WORKER:
+            out.append((['HANG-SKIPPED'], None))
+            continue
         try:
             o = _IMPL_FUNCS[fn](arg)
         except BaseException as e:   # harness-level failure, reported as such
             out.append((['HARNESS', repr(e), traceback.format_exc()[-800:]], None))
+            continue
+        if is_hang(o):
+            hangs += 1
+            out.append((o, None))
             continue
         msg = None
         if _ORACLE is not None:
@@ -689,7 +731,7 @@ def run_check(mod, tier, seed):
 
         # ---- correspondence + oracle
         funcs = mod.FUNCS            # fn -> (name, impl, schema)
-        implf = {fn: v[1] for fn, v in funcs.items()}
+        implf = {fn: hang_guard(v[1]) for fn, v in funcs.items()}
         canon = getattr(mod, 'canon', lambda fn, r: canon_res(r))
         oracle = getattr(mod, 'oracle', None)
         nontrivial = getattr(mod, 'nontrivial', lambda fn, arg, out: out[:1] == [0] and len(sx(out)) > 8)
@@ -747,12 +789,20 @@ def run_check(mod, tier, seed):
         stream_stats = {}
         errkinds = {}
         harness_errors = []
+        hangs = []
+        hang_skipped = 0
         for idx, (stream, fn, arg) in enumerate(cases):
             io = iouts[idx]
             st = stream_stats.setdefault(stream, {'cases': 0, 'mismatch': 0, 'oracle_fail': 0})
             st['cases'] += 1
             if isinstance(io, list) and io and io[0] == 'HARNESS':
                 harness_errors.append((fn, arg, io))
+                continue
+            if is_hang(io):
+                if io[0] == 'HANG':
+                    hangs.append((idx, fn, arg)); st['hang'] = st.get('hang', 0) + 1
+                else:
+                    hang_skipped += 1
                 continue
             kind = {0: 'ok', 1: 'pybtex_error', 2: 'crash'}.get(io[0] if isinstance(io, list) and io and isinstance(io[0], int) else 0, 'ok')
             errkinds[kind] = errkinds.get(kind, 0) + 1
@@ -796,7 +846,9 @@ def run_check(mod, tier, seed):
 
         # ---- order independence of the implementation's answers (see order_independence)
         order_info = {}
-        if not harness_errors and not getattr(mod, 'NO_ORDER_REPLAY', False) and not os.environ.get('VERIF_SKIP_ORDER_REPLAY'):
+        if hangs:
+            _hang_limit[0] = min(_hang_limit[0], 3)
+        if not harness_errors and not hangs and not getattr(mod, 'NO_ORDER_REPLAY', False) and not os.environ.get('VERIF_SKIP_ORDER_REPLAY'):
             try:
                 oi = order_independence(ck, mod, implf, canon, plain, iouts, random.Random(seed ^ 0x5eed),
                                         budget_cases=(2500 if tier == 'quick' else 12000), budget_s=(40 if tier == 'quick' else 240))
@@ -825,6 +877,20 @@ def run_check(mod, tier, seed):
                                    'what': 'the implementation answers this case differently after the listed earlier calls in the same process than on its own'
                                            + ((' -- and the answer violates the property: ' + msg) if msg else ' (results depend on what the process did before)'),
                                    'failing_input_found': bool(msg)})
+        # ---- non-termination: the implementation gave no answer at all on these inputs
+        fn_seen = set()
+        for (idx, fn, arg) in hangs:
+            if fn in fn_seen or len(fn_seen) >= 3:
+                continue
+            msg = 'the implementation did not return within %d s of CPU time on this input (%d such cases, %d more cases skipped after them)' % (HANG_CPU_S, len(hangs), hang_skipped)
+            if ck.match_known('oracle', fn, arg, msg):
+                continue
+            fn_seen.add(fn)
+            violations.append({'kind': 'hang', 'fn': fn, 'function': funcs[fn][0], 'arg': arg, 'readable': describe(mod, fn, arg),
+                               'model_output': mouts[idx] if model_ok and idx < len(mouts) else None,
+                               'what': msg + ': every clause of the property speaks about what the call returns, and the model (proved total) returns the listed answer',
+                               'failing_input_found': True})
+
         # ---- classify oracle failures (each is a concrete failing input on the implementation)
         new_oracle = []
         for (idx, fn, arg, msg, io) in oracle_fail:
@@ -1002,10 +1068,13 @@ def replay(mod, path):
         mdl = Model(mod.ID)
         mdl.marg = getattr(mod, 'model_arg', None)
         m = mdl.run1(fn, arg)
-        i = mod.FUNCS[fn][1](arg)
+        i = hang_guard(mod.FUNCS[fn][1])(arg)
         print('model :', m)
         print('impl  :', i)
         oracle = getattr(mod, 'oracle', None)
+        if is_hang(i):
+            print('oracle: the implementation did not return within %d s of CPU time on this input' % HANG_CPU_S)
+            return 1
         msg = oracle(fn, arg, i) if oracle else None
         print('oracle:', msg or 'property holds on this input')
         return 1 if (msg or canon_res(m) != canon_res(i)) else 0
